@@ -232,18 +232,20 @@ Proof.
 Qed.
 
 (* ---------------- dec_validate_replay: replay_insert's outcome x the retry exemption ----------------
-   ins = replay_insert's result (0 inserted, > 0 already there, < 0 failure), en = errno after it.  A credential that
-   is already there is accepted exactly when retries are enabled and 0 < retry <= MUNGE_SOCKET_RETRY_ATTEMPTS. *)
+   ins = replay_insert's result (0 inserted, > 0 already there, < 0 failure), en = errno after it, c = the request's
+   c->is_replay_new on entry.  A credential that is already there is accepted exactly when retries are enabled and
+   0 < retry <= MUNGE_SOCKET_RETRY_ATTEMPTS.  c->is_replay_new is set exactly when THIS call inserted the record
+   (third component of the result); an allowed replay leaves it as it was. *)
 Definition replay_exempt (cf : conf) (m : msg) : bool :=
   cf_socket_retry cf && (0 <? m_retry m) && (m_retry m <=? c_retry_attempts).
 
-Theorem dec_validate_replay_is_source : forall (cf : conf) (ins en : Z) (m : msg),
-  src_dec_validate_replay cf ins en m =
+Theorem dec_validate_replay_is_source : forall (cf : conf) (ins en c : Z) (m : msg),
+  src_dec_validate_replay cf ins en c m =
   ((if (ins =? 0)%Z then 0
     else if (ins >? 0)%Z then (if replay_exempt cf m then 0 else e_cred_replayed)
-    else if (en =? 12)%Z then e_no_memory else e_snafu), m).
+    else if (en =? 12)%Z then e_no_memory else e_snafu), m, (if (ins =? 0)%Z then 1 else c)%Z).
 Proof.
-  intros cf ins en m. unfold src_dec_validate_replay, replay_exempt.
+  intros cf ins en c m. unfold src_dec_validate_replay, replay_exempt.
   cbn beta iota zeta.
   destruct (ins =? 0)%Z; [reflexivity|]. cbn beta iota.
   destruct (ins >? 0)%Z; cbn beta iota.
